@@ -159,7 +159,11 @@ class ShortOp(Op):
         elif self.op == '-=':
             state.names[self.name] -= value
         elif self.op == '*=':
-            state.names[self.name] *= value
+            current = state.names[self.name]
+            if not isinstance(current, NUMERIC_TYPES) or not isinstance(value, NUMERIC_TYPES):
+                raise ParserError(f'Can\'t multiply non-numbers')
+
+            state.names[self.name] = Decimal(current) * Decimal(value)
         elif self.op == '/=':
             state.names[self.name] /= value
         else:
